@@ -1,14 +1,14 @@
 #!/bin/bash
 # seedcheck.sh <Cxx> <seed-dir> [check-ids...]  Confirms a seeded change in a scratch worktree of /repo's HEAD
-# (builds, baseline passes, demo fails with it and passes without), then applies it to /repo,
-# runs the quick check(s) (default: the property's own), and reverts /repo.
+# (builds, baseline passes, demo fails with it and passes without), then runs the quick check(s)
+# (default: the property's own) against that worktree through VERIF_REPO. /repo is never touched.
 set -u
 P=$1; SD=$2; shift 2; CHECKS="${@:-$P}"
 export GOFLAGS=-mod=mod GOPROXY=off GOSUMDB=off GOTOOLCHAIN=local
 WT=/tmp/scratch/seedwt-$$
 mkdir -p /tmp/scratch
 git -C /repo worktree add -q --detach $WT HEAD || exit 2
-trap 'git -C /repo worktree remove --force $WT 2>/dev/null; git -C /repo checkout -q -- . 2>/dev/null' EXIT
+trap 'git -C /repo worktree remove --force $WT 2>/dev/null' EXIT
 DEMODIR=$(python3 -c "import json;print(json.load(open('$SD/meta.json')).get('demo_dir','.'))")
 if ! git -C $WT apply $SD/patch.diff; then echo "SEED $P: patch does not apply to HEAD"; exit 1; fi
 (cd $WT && go build ./... ) && echo "SEED $P: builds" || { echo "SEED $P: BUILD FAILS"; exit 1; }
@@ -18,11 +18,9 @@ cp $(ls $SD/demo_test.go $SD/demo_test.go.txt 2>/dev/null | head -1) $WT/$DEMODI
 git -C $WT apply -R $SD/patch.diff
 (cd $WT/$DEMODIR && go test -mod=mod -vet=off -count=1 -run 'Seed|Demo|C[0-9][0-9]' . >/tmp/scratch/demo_without.log 2>&1) && echo "SEED $P: demo passes without patch (good)" || { echo "SEED $P: demo FAILS without patch (bad)"; tail -5 /tmp/scratch/demo_without.log; }
 cd /verif
-if [ -n "$(git -C /repo status --porcelain)" ]; then echo "/repo not clean"; exit 2; fi
-git -C /repo apply $SD/patch.diff || exit 1
+git -C $WT apply $SD/patch.diff || exit 1
 for c in $CHECKS; do
-  out=$(VERIF_ROOT=/tmp/scratch/seedverif ./run.sh $c quick 2>&1); code=$?
+  out=$(VERIF_REPO=$WT VERIF_ROOT=/tmp/scratch/seedverif-$$ ./run.sh $c quick 2>&1); code=$?
   echo "SEED $P: check $c exit=$code $(echo "$out" | grep -m1 '^VIOLATION') $(echo "$out" | grep -m1 '  key=' | cut -c1-260)"
 done
-git -C /repo checkout -q -- .
-rm -rf /tmp/scratch/seedverif
+rm -rf /tmp/scratch/seedverif-$$
